@@ -12,7 +12,9 @@
 (*            - `start` is asserted only while no transmission is in       *)
 (*              progress (i.e. strictly after the `done` pulse);           *)
 (*            - start_position and max_length are held from the start      *)
-(*              strobe until the transmission is over;                     *)
+(*              strobe until the transmission is over, unless the module   *)
+(*              documents that they are applied at the strobe (cfg.latched);*)
+(*            - the domain reset (in.rst) may be asserted in any cycle;    *)
 (*            - the start position lies within the data (in words);        *)
 (*            - max_length is any value of its port, 0 .. cfg.mlmax =       *)
 (*              2^max_length_width - 1, which may be smaller or larger than  *)
@@ -72,6 +74,7 @@ WBase(c, r, j)   == (r.sp + j) * c.w                         \* data offset of w
 WChunk(c, r, j)  == Min(c.w, NBytes(c) - WBase(c, r, j))     \* bytes the constant holds for that word
 WValid(c, r, j)  == Min(c.w, Count(c, r) - j * c.w)          \* bytes of that word that are sent
 Mask(n)          == 2 ^ n - 1                                \* n low valid bits
+ExpMask(c, n)    == IF c.v1 THEN 1 ELSE Mask(n)              \* streams with a single valid bit per word
 
 \* Stream byte i (1-based) of word j sits in lane (1-based): little-endian lane i; big-endian: the
 \* word is the big-endian integer of its chunk, so the chunk's first byte is in the highest lane.
@@ -81,25 +84,32 @@ LegalReq(c, r) ==
     /\ r.sp < NWordsTotal(c)
     /\ (~c.haslen => r.ml = NBytes(c))
     /\ (c.haslen => r.ml <= c.mlmax)         \* whole range of the max_length port: 0 .. 2^max_length_width - 1
-    /\ (c.big => \A j \in 0..(NW(c, r) - 1) : WValid(c, r, j) = WChunk(c, r, j))
+    /\ ((c.big \/ c.v1) => \A j \in 0..(NW(c, r) - 1) : WValid(c, r, j) = WChunk(c, r, j))
 
 -----------------------------------------------------------------------------
 Init0 == /\ phase = "idle"
          /\ req = [sp |-> 0, ml |-> 0]
          /\ k = 0 /\ wait = 0 /\ offered = FALSE
-         /\ in = [start |-> FALSE, sp |-> 0, ml |-> 0, ready |-> FALSE]
+         /\ in = [start |-> FALSE, sp |-> 0, ml |-> 0, ready |-> FALSE, rst |-> FALSE]
          /\ out = [valid |-> 0, lanes |-> <<>>, first |-> FALSE, last |-> FALSE, done |-> FALSE, olen |-> 0]
          /\ emitted = <<>> /\ firsts = <<>> /\ lasts = <<>> /\ dones = 0
 
 (* Env assumptions, as named clauses (the trace specification reports the first one violated). *)
-E_start(i)  == i.start => phase = "idle"
-E_held(i)   == phase # "idle" => (i.sp = req.sp /\ i.ml = req.ml)
+Held(i)     == i.sp = req.sp /\ i.ml = req.ml
+E_start(i)  == i.start => (phase = "idle" /\ ~i.rst)
+\* cfg.latched: the module documents that start_position / max_length are applied when start is pulsed
+\* (ConstantStreamGenerator); otherwise they must be held (StreamSerializer documents nothing).
+E_held(i)   == (phase # "idle" /\ ~cfg.latched) => Held(i)
 E_req(i)    == i.start => LegalReq(cfg, [sp |-> i.sp, ml |-> i.ml])
-LegalInput(i) == E_start(i) /\ E_held(i) /\ E_req(i)
+\* Open finding C27-first-follows-live-start-position: `first` is computed from the live start_position input.
+\* Trigger: the input differs from the latched request while a transmission is in progress; clean stimuli never do.
+KF_InputsChanged(i) == phase # "idle" /\ ~Held(i)
+E_clean(i)  == cfg.clean => ~KF_InputsChanged(i)
+LegalInput(i) == E_start(i) /\ E_held(i) /\ E_req(i) /\ E_clean(i)
 
 (* Observation relation, as named clauses evaluated in the state before the step. *)
 BeatNow(o)     == phase = "streaming" /\ o.valid # 0
-O_valid(o)     == IF phase = "streaming" THEN o.valid \in {0, Mask(WValid(cfg, req, k))} ELSE o.valid = 0
+O_valid(o)     == IF phase = "streaming" THEN o.valid \in {0, ExpMask(cfg, WValid(cfg, req, k))} ELSE o.valid = 0
 O_withdrawn(o) == (phase = "streaming" /\ o.valid = 0) => ~offered
 O_latency(o)   == (phase = "streaming" /\ o.valid = 0) => wait < MaxLat
 O_lanes(o)     == BeatNow(o) => /\ Len(o.lanes) = cfg.w
@@ -120,14 +130,19 @@ ObservedBytes(o) == [i \in 1..WValid(cfg, req, k) |-> o.lanes[LaneOf(cfg, req, k
 (* One clock cycle with inputs i in which outputs o were observed (LegalInput(i) /\ OutOK(o)). *)
 Step(i, o) ==
   /\ in' = i /\ out' = o /\ cfg' = cfg
-  /\ CASE phase = "idle" ->
+  /\ CASE i.rst ->          \* reset of the generator's clock domain: whatever was going on is abandoned, the
+                            \* generator is idle from the next cycle on and a later start is served normally
+            /\ phase' = "idle" /\ k' = 0 /\ wait' = 0 /\ offered' = FALSE
+            /\ req' = [sp |-> 0, ml |-> 0]
+            /\ emitted' = <<>> /\ firsts' = <<>> /\ lasts' = <<>> /\ dones' = 0
+       [] ~i.rst /\ phase = "idle" ->
             IF i.start
             THEN LET r == [sp |-> i.sp, ml |-> i.ml] IN
                  /\ req' = r /\ k' = 0 /\ wait' = 0 /\ offered' = FALSE
                  /\ emitted' = <<>> /\ firsts' = <<>> /\ lasts' = <<>> /\ dones' = 0
                  /\ phase' = IF Count(cfg, r) = 0 THEN "zero" ELSE "streaming"
             ELSE UNCHANGED <<phase, req, k, wait, offered, emitted, firsts, lasts, dones>>
-       [] phase = "streaming" ->
+       [] ~i.rst /\ phase = "streaming" ->
             IF o.valid = 0
             THEN /\ wait' = wait + 1
                  /\ UNCHANGED <<phase, req, k, offered, emitted, firsts, lasts, dones>>
@@ -139,13 +154,13 @@ Step(i, o) ==
                       /\ UNCHANGED <<req, dones>>
                  ELSE /\ offered' = TRUE
                       /\ UNCHANGED <<phase, req, k, wait, emitted, firsts, lasts, dones>>
-       [] phase = "finishing" ->
+       [] ~i.rst /\ phase = "finishing" ->
             IF o.done
             THEN /\ phase' = "idle" /\ dones' = dones + 1 /\ wait' = 0
                  /\ UNCHANGED <<req, k, offered, emitted, firsts, lasts>>
             ELSE /\ wait' = wait + 1
                  /\ UNCHANGED <<phase, req, k, offered, emitted, firsts, lasts, dones>>
-       [] phase = "zero" ->      \* nothing may be emitted; a done pulse is optional
+       [] ~i.rst /\ phase = "zero" ->      \* nothing may be emitted; a done pulse is optional
             IF o.done \/ wait >= MaxLat
             THEN /\ phase' = "idle" /\ dones' = dones + (IF o.done THEN 1 ELSE 0) /\ wait' = 0
                  /\ UNCHANGED <<req, k, offered, emitted, firsts, lasts>>
